@@ -761,6 +761,11 @@ class Evaluator:
             return x[1]
         if tag(x) == "variant" and x[2] == vn and isinstance(i, int) and i < len(x[3]):
             return x[3][i]
+        if tag(x) == "vsum" and isinstance(i, int):
+            # a value known variant by variant (the result of a combinator): the payload of the variant asked for
+            for n_, p_ in x[2]:
+                if n_ == vn and i < len(p_):
+                    return p_[i]
         if tag(x) == "call" and x[1].endswith("checked_sub") and vn == "Some" and i == 0:
             return sub(x[2][0], x[2][1])
         if tag(x) == "call" and x[1].endswith("checked_add") and vn == "Some" and i == 0:
@@ -806,32 +811,73 @@ class Evaluator:
         if not proj:
             frame.env[l] = val
             if l == 0:
+                own_ = "%s@" % frame.body.name
                 if tag(val) == "vsum" and len(val) > 3 and val[3][0] == "by":
                     # `r.map(f)` returned as it is = `match r { Ok(v) => Ok(f(v)), Err(e) => Err(e) }`: one return per variant of r
-                    for nm, payload in val[2]:
-                        e_ = self._log(frame, bi, si, kind="ret0", value=("variant", val[1], nm, payload))
-                        if e_ is not None:
-                            e_.setdefault("extra_guards", []).append(("variant-is", val[3][1], nm))
+                    vals = [(("variant", val[1], nm, payload), [("variant-is", val[3][1], nm)], None) for nm, payload in val[2]]
+                elif (tag(val) == "vsum" and len(val) > 3 and val[3][0] == "from" and len(val[3][1]) == len(frame.chain) + 1 and str(val[3][1][-1]).startswith(own_)
+                      and all(o is not None for _, o in val[3][2])):
+                    # a value joined from variant constructions of this frame (the exits of an inlined helper, possibly passed through `.map(..)`) and returned
+                    # as it is: one return per construction, each with what that edge brought
+                    try:
+                        jb_ = int(str(val[3][1][-1]).split("@")[-1])
+                    except ValueError:
+                        jb_ = None
+                    vals = []
+                    pay = dict(val[2])
+                    for nm, origin in (val[3][2] if jb_ is not None else ()):
+                        v_ = ("variant", val[1], nm, pay.get(nm, ()))
+                        phis = []
+                        same_variant = [o for n_, o in val[3][2] if n_ == nm]
+
+                        def origins_of(x):
+                            # the incoming edges of a payload join; one edge left unnamed is the construction of this variant that is not among the named ones
+                            o4 = list(x[4])
+                            if o4.count(None) == 1:
+                                rest_ = [o for o in same_variant if o not in o4]
+                                if len(rest_) == 1:
+                                    o4[o4.index(None)] = rest_[0]
+                            return o4
+                        _walk_terms(v_, lambda x: phis.append(x) if (tag(x) == "phi" and len(x) > 4 and x[1] == val[3][1] and x[4] and len(x[4]) == len(x[3])
+                                                                    and origin in origins_of(x)) else None)
+                        for ph_ in phis:
+                            v_ = _subst(v_, ph_, ph_[3][origins_of(ph_).index(origin)])
+                        vals.append((self._resimplify(v_), [], (origin, jb_)))
+                    if not vals:
+                        vals = [(val, [], None)]
                 else:
-                    split = self._dispatch_join(frame, val)
-                    if split is not None and not frame.body.dominates(split[1], bi) and not self._reached_only_through(frame, bi, split[1]):
+                    vals = [(val, [], None)]
+                for val_, eg_, edge_ in vals:
+                    split = self._dispatch_join(frame, val_)
+                    at_ = edge_[0] if edge_ is not None else bi      # (a return that stands for one incoming edge of a join is reached over that edge)
+                    if split is not None and not (frame.body.dominates(split[1], at_) or split[1] == at_) and not self._reached_only_through(frame, bi, split[1]):
                         split = None        # some path returns here without passing the dispatch: the per-call reading would lose it
                     if split is None:
-                        self._log(frame, bi, si, kind="ret0", value=val)
+                        e_ = self._log(frame, bi, si, kind="ret0", value=val_)
+                        if e_ is not None and eg_:
+                            e_.setdefault("extra_guards", []).extend(eg_)
+                        if e_ is not None and edge_ is not None:
+                            e_.setdefault("extra_edges", []).append(edge_)
                     else:
                         # `let r = match kind { A => f(), B => g() }; ..; return h(r)`: one return per call that can have produced r
                         ph, jb = split
                         for alt, origin in zip(ph[3], ph[4]):
-                            v2 = _subst(val, ph, alt)
+                            v2 = _subst(val_, ph, alt)
                             if tag(v2) == "vsum" and len(v2) > 3 and v2[3][0] == "by":
                                 for nm, payload in v2[2]:
                                     e_ = self._log(frame, bi, si, kind="ret0", value=("variant", v2[1], nm, payload))
                                     e_.setdefault("extra_edges", []).append((origin, jb))
-                                    e_.setdefault("extra_guards", []).append(("variant-is", v2[3][1], nm))
+                                    if edge_ is not None:
+                                        e_["extra_edges"].append(edge_)
+                                    e_.setdefault("extra_guards", []).extend(list(eg_) + [("variant-is", v2[3][1], nm)])
                                     e_["subst"] = (ph, alt)
                                 continue
                             e_ = self._log(frame, bi, si, kind="ret0", value=self._resimplify(v2))
                             e_.setdefault("extra_edges", []).append((origin, jb))
+                            if edge_ is not None:
+                                e_["extra_edges"].append(edge_)
+                            if eg_:
+                                e_.setdefault("extra_guards", []).extend(eg_)
                             e_["subst"] = (ph, alt)
             return
         # find the deepest deref
@@ -1133,8 +1179,15 @@ class Evaluator:
         def grab(x):
             if (not hit and tag(x) == "phi" and len(x) > 4 and x[4] and all(o is not None for o in x[4]) and len(x[1]) == len(frame.chain) + 1
                     and str(x[1][-1]).startswith(own) and len(x[3]) >= 2):
-                calls = [a for a in x[3] if tag(a) == "call" and len(a) > 3]
-                rest = [a for a in x[3] if not (tag(a) == "call" and len(a) > 3)]
+                def callof(a):
+                    # the call an alternative is the result of - as it is, or after `?` took its Ok / Some payload (`match kind { A => f()?, B => g()? }`)
+                    if tag(a) == "call" and len(a) > 3:
+                        return a
+                    if tag(a) == "payload" and tag(a[1]) == "call" and len(a[1]) > 3 and a[2] in ("Ok", "Some"):
+                        return a[1]
+                    return None
+                calls = [callof(a) for a in x[3] if callof(a) is not None]
+                rest = [a for a in x[3] if callof(a) is None]
                 # the results of different calls, possibly next to plain Option / Result values (`match kind { None => Err(..), A => f(), B => g() }`)
                 if calls and len(set(a[1] for a in calls)) == len(calls) and all(tag(a) in ("variant", "vsum") for a in rest) and (len(calls) >= 2 or rest):
                     hit.append(x)
@@ -1639,6 +1692,11 @@ class Evaluator:
                 return ("filter", recv, pv)
             self._invalidate()
             return ("call", c, tuple(args))
+        m = re.search(r"(Result|Option)::<.*>::map_or_else$", c)
+        if m and len(args) == 3:
+            # opt.map_or_else(d, f) = opt.map(f).unwrap_or_else(d)
+            mapped = self._combinator(frame, bi, m.group(1), "map", args[0], args[2], site + ("map_or_else",), entry)
+            return self._combinator(frame, bi, m.group(1), "unwrap_or_else", mapped, args[1], site, entry)
         m = re.search(r"(Result|Option)::<.*>::(map|and_then|map_err|inspect|inspect_err|ok_or_else|unwrap_or_else|or_else)$", c)
         if m and len(args) == 2:
             return self._combinator(frame, bi, m.group(1), m.group(2), args[0], args[1], site, entry)
@@ -1698,10 +1756,18 @@ class Evaluator:
                         a0 = args[0]
                     return self._inline(frame, bi, cb, [a0] + list(targs), entry)
             if tag(f) == "fn":
-                fb = self.facts.body(f[1].split("::<")[0])
+                fpath = f[1].split("::<")[0]
+                fb = self.facts.body(fpath)
+                targs = args[1][1] if tag(args[1]) == "tuple" else (args[1],)
                 if self._should_inline(fb, f[1]):
-                    targs = args[1][1] if tag(args[1]) == "tuple" else (args[1],)
                     return self._inline(frame, bi, fb, list(targs), entry)
+                if fb is not None and not fb.file.startswith("/") and fb.nargs == len(targs):
+                    # a crate function handed over as a value (`give_back: impl FnOnce(..)` = `Self::optimistic_dealloc`) and called: the call of that function
+                    entry["callee"] = fpath
+                    entry["args"] = list(targs)
+                    entry["via_fn_value"] = True
+                    self._argtys = [None] * len(targs)
+                    return self._model(frame, bi, t, fpath, list(targs), site, entry)
             self._invalidate()
             return ("call", c.split("<")[0] + short, tuple(args), site)
         # ---- conversions
@@ -1980,7 +2046,8 @@ class Evaluator:
             cond = ("phi", v[3][1], "discr", tuple(alts), tuple(origs))
         if not (tag(cond) == "phi" and len(cond) > 4 and cond[4] and all(o is not None for o in cond[4])):
             return []
-        if not all(isinstance(a, Lin) and a.is_const() for a in cond[3]):
+        mixed = not all(isinstance(a, Lin) and a.is_const() for a in cond[3])
+        if mixed and not all((isinstance(a, Lin) and a.is_const()) or tag(a) in ("cmp", "not") for a in cond[3]):
             return []
         chain = res.frame.chain if res.frame is not None else ()
         site = cond[1]
@@ -1999,6 +2066,17 @@ class Evaluator:
             if rel[0] == "in":
                 return v in tuple(rel[1])
             return True
+        if mixed:
+            # `let flag = a && b;` (joined from a comparison and a constant): when only one incoming edge can give the tested value, the test says what that
+            # edge says - and, if the edge brought a comparison, that comparison's outcome
+            can = [(a, o) for a, o in zip(cond[3], cond[4]) if not (isinstance(a, Lin) and a.is_const()) or sat(a.c)]
+            if len(can) != 1 or rel not in (("eq", 0), ("eq", 1), ("ne", (0,)), ("ne", (1,))):
+                return []
+            a, o = can[0]
+            out = list(self.guards_edge(res, o, jb, body, depth + 1))
+            if not (isinstance(a, Lin) and a.is_const()):
+                out.append((a, ("eq", 1 if rel in (("eq", 1), ("ne", (0,))) else 0)))
+            return out
         match = [o for a, o in zip(cond[3], cond[4]) if sat(a.c)]
         if not match or len(match) == len(cond[4]):
             return []
@@ -2223,6 +2301,17 @@ def implied_facts(guards):
                           frozenset(["Lt", "Gt"]): "Ne"}.get(frozenset(left))
                 if op is not None:
                     facts |= implied_facts([(("cmp", op, a_, b_), ("eq", 1))])
+            if tag(x) == "vsum" and len(x) == 3 and str(x[1]).endswith("ControlFlow"):
+                # `opaque()?`: Try::branch of a value nothing is known about - Continue <=> Ok / Some, Break <=> Err / None: the test is one of the value itself
+                d_ = dict(x[2])
+                cont = d_.get("Continue")
+                if cont and tag(cont[0]) == "payload" and cont[0][2] in ("Ok", "Some") and str(cont[0][3]) == "0":
+                    recv, is_res = cont[0][1], cont[0][2] == "Ok"
+                    went_on = rel in (("eq", 0), ("ne", (1,)))
+                    broke = rel in (("eq", 1), ("ne", (0,)))
+                    if went_on or broke:
+                        facts.discard(("discr", cond[1], rel))
+                        facts |= implied_facts([(("discr", recv), ("eq", (0 if is_res else 1) if went_on else (1 if is_res else 0)))])
             if tag(x) == "nonzero":
                 facts.discard(("discr", cond[1], rel))      # the test says exactly `x != 0` / `x == 0`: one spelling for both ways of writing it
                 if rel in (("eq", 1), ("ne", (0,))):
